@@ -157,7 +157,7 @@ func (C04) Explore(x *kernel.Explorer, seed uint64) {
 	for i := 0; i < 4 && !x.Expired(); i++ {
 		plan := &kernel.Plan{Prop: "C04", Seed: kernel.Mix(seed, uint64(i)), Swarm: map[string]int64{"idlenth": int64([]int{0, 0, 0, 2, 3}[r.Intn(5)]),
 			"chunk": int64(r.Intn(4)), "colseed": int64(r.Uint32()), "stranger": int64(r.Intn(2)),
-			"mysql": int64(r.Intn(3) / 2), "depeof": int64(r.Intn(2)), "wyield": int64(r.Intn(2))}}
+			"mysql": int64(r.Intn(3) / 2), "depeof": int64(r.Intn(2)), "rawmy": int64(r.Intn(2)), "reexec": int64(r.Intn(2)), "wyield": int64(r.Intn(2))}}
 		plan.Swarm["ksv2"] = int64(r.Intn(3) / 2)
 		if r.Chance(1, 6) {
 			// one call into the token storage fails with an I/O error
@@ -256,13 +256,27 @@ func (C04) Run(t *testing.T, plan *kernel.Plan, keepLog bool) *kernel.Result {
 		}
 		valuesOf := func(row *c04Row, op kernel.Op, params *[][]byte, formats *[]int16, useParams bool, binary bool) string {
 			var parts []string
+			// every second row of a binary statement sends all its parameters in the binary format (the id as a
+			// 4-byte integer), as drivers that prefer the binary format do; only without numeric protected columns
+			allBinary := binary && row.id%2 == 0
+			for i := range cols {
+				if cols[i].numeric() {
+					allBinary = false
+				}
+			}
 			add := func(lit string, raw []byte, c *colKind) {
 				if useParams {
-					*params = append(*params, raw)
 					f := int16(0)
 					if binary && c != nil && !c.numeric() {
 						f = 1
 					}
+					if allBinary {
+						f = 1
+						if c == nil && lit == strconv.Itoa(row.id) && len(*params)%(2+len(cols)) == 0 {
+							raw = []byte{byte(row.id >> 24), byte(row.id >> 16), byte(row.id >> 8), byte(row.id)}
+						}
+					}
+					*params = append(*params, raw)
 					*formats = append(*formats, f)
 					parts = append(parts, fmt.Sprintf("$%d", len(*params)))
 					return
